@@ -139,6 +139,23 @@ def leftWriter (s : Sh) (seen : Nat) (now : Int) : Sh × Out :=
 
 def setNth (l : List α) (i : Nat) (x : α) : List α := l.set i x
 
+/-- the atomic section a caller in state `pc` (about to perform / performing `op`) executes next -/
+def runSection (sh : Sh) (pc : Pc) (op : Op) (now : Int) : Sh × Out :=
+  match pc, op with
+  | .idle, .next => nextReader sh now
+  | .idle, .left => (sh, leftReader sh now)
+  | .nextW tx seen, _ => nextWriter sh tx seen now
+  | .leftW seen, _ => leftWriter sh seen now
+
+/-- fold a section's outcome back into the global state -/
+def applyOut (st : St) (i : Nat) (th : Thread) (more : List Op) (sh' : Sh) (out : Out) : St :=
+  match out with
+  | .park pc => { st with cs := sh'.cs, la := sh'.la, started := sh'.started,
+                          thr := setNth st.thr i { th with pc := pc }, log := (i, .parked) :: st.log }
+  | .ret r => { st with cs := sh'.cs, la := sh'.la, started := sh'.started,
+                        thr := setNth st.thr i { pc := .idle, todo := more, rets := r :: th.rets },
+                        log := (i, r) :: st.log }
+
 /-- one scheduling step: caller `i` runs until it parks or returns. A finished or unknown caller: no-op. -/
 def step (now : Int) (st : St) (i : Nat) : St :=
   match st.thr[i]? with
@@ -147,19 +164,8 @@ def step (now : Int) (st : St) (i : Nat) : St :=
     match th.todo with
     | [] => st
     | op :: more =>
-      let sh : Sh := ⟨st.cs, st.la, st.started⟩
-      let (sh', out) : Sh × Out :=
-        match th.pc, op with
-        | .idle, .next => nextReader sh now
-        | .idle, .left => (sh, leftReader sh now)
-        | .nextW tx seen, _ => nextWriter sh tx seen now
-        | .leftW seen, _ => leftWriter sh seen now
-      match out with
-      | .park pc => { st with cs := sh'.cs, la := sh'.la, started := sh'.started,
-                              thr := setNth st.thr i { th with pc := pc }, log := (i, .parked) :: st.log }
-      | .ret r => { st with cs := sh'.cs, la := sh'.la, started := sh'.started,
-                            thr := setNth st.thr i { pc := .idle, todo := more, rets := r :: th.rets },
-                            log := (i, r) :: st.log }
+      let r := runSection ⟨st.cs, st.la, st.started⟩ th.pc op now
+      applyOut st i th more r.1 r.2
 
 def run (now : Int) (st : St) (sched : List Nat) : St := sched.foldl (step now) st
 
